@@ -228,7 +228,7 @@ def run_shard(ctx):
     acc = ctx.acc
     cases = list(TEMPLATES)
     r = ctx.sub_rng('compose')
-    for _ in range(900 if ctx.tier == 'quick' else 8000):
+    for _ in range(900 if ctx.tier == 'quick' else 30000):
         cases.append(compose(r))
     histories = ['plain', 'plain', 'too-few', 'too-many', 'prepare-twice', 'second-execute', 'interleaved-prepare']
     idx = -1
